@@ -298,10 +298,11 @@ impl Runner {
         let full = self.full;
         let o = self.o;
         let tok: Result<String, ()> = catch(|| match c {
-            b'D' => {
+            // 'G' is 'D' without the area exclusion: for complete pictures the generator made large on purpose
+            b'D' | b'G' => {
                 let data = unhex(arg);
                 let mut r = H263Reader::from_source(&data[..]);
-                if declared_area(&self.st, o, &mut r) > 16777216 {
+                if c == b'D' && declared_area(&self.st, o, &mut r) > 16777216 {
                     return "excluded".to_string();
                 }
                 match self.st.decode_next_picture(&mut r) {
